@@ -1,10 +1,11 @@
 /-
   C04 for flexbox, part 7: the stages composed.
 
-    afterMain_scale              steps 6 to the end: homogeneous, for every state (no side condition)
-    prefixProg_sim               steps 1–5 + main size: the scaled container sends the scaled queries; its result is the
-                                 scaled result provided no item hit the floor (`LinesFloorFree`)
-    computePreliminary_scale_of  if the main size is not determined intrinsically (`NoIntrinsic`): homogeneous
+    afterMain_scale              steps 6 to the end: homogeneous, for every state
+    prefixProg_scale             steps 1–5 + `determine_container_main_size`: homogeneous
+    computePreliminary_scale     `compute_preliminary`
+    computeFlexboxLayout_scale   `compute_flexbox_layout`: the program of the scaled container is the scaled program
+  No side condition anywhere.
 -/
 import TaffyVerif.Lemmas.FlexScaleMain
 
@@ -80,15 +81,6 @@ theorem mainFinish_scale (hk : 0 < k) (c : AlgoConstants Rat) (oms : Rat) :
     fxk_innerContainerSize, Size.main_scale, Rect.mainAxisSum_scale, Dir.pMain_scale, fo_clamp_scale hk, sub_scale,
     fmax_scale hk, hz, setMain_scale, setMain_scale_some]
 
-/-- the main size is not determined intrinsically: it is known, or the available main space is definite, or the
-container wraps under a min-content constraint -/
-def NoIntrinsic (c : AlgoConstants Rat) (av : Size (AvailableSpace Rat)) : Prop :=
-  (c.nodeOuterSize.main c.dir).isSome = true ∨ (av.main c.dir).isDefinite = true ∨
-    (av.main c.dir = .minContent ∧ c.isWrap = true)
-
-instance (c : AlgoConstants Rat) (av : Size (AvailableSpace Rat)) : Decidable (NoIntrinsic c av) := by
-  unfold NoIntrinsic; exact inferInstance
-
 /-- the intrinsic arm of `mainOuter` -/
 def mainIntrinsic (c : AlgoConstants Rat) (av : Size (AvailableSpace Rat)) (lines : List (FlexLineS Rat)) :
     ProgM Rat (List (FlexLineS Rat) × Rat) := do
@@ -98,31 +90,26 @@ def mainIntrinsic (c : AlgoConstants Rat) (av : Size (AvailableSpace Rat)) (line
 /-- `mainOuter` is either pure (with a homogeneous value) or the intrinsic arm, on both sides alike -/
 theorem mainOuter_cases (hk : 0 < k) (c : AlgoConstants Rat) (av : Size (AvailableSpace Rat))
     (lines : List (FlexLineS Rat)) :
-    (NoIntrinsic c av ∧ ∃ v : Rat, mainOuter c av lines = pure (lines, v) ∧
+    (∃ v : Rat, mainOuter c av lines = pure (lines, v) ∧
       mainOuter (scale k c) (scale k av) (scale k lines) = pure (scale k lines, scale k v)) ∨
-    (¬ NoIntrinsic c av ∧ mainOuter c av lines = mainIntrinsic c av lines ∧
+    (mainOuter c av lines = mainIntrinsic c av lines ∧
       mainOuter (scale k c) (scale k av) (scale k lines) = mainIntrinsic (scale k c) (scale k av) (scale k lines)) := by
-  unfold mainOuter NoIntrinsic
+  unfold mainOuter
   simp only [fxk_nodeOuterSize, fxk_dir, fxk_isWrap, fxk_contentBoxInset, Size.main_scale, Rect.mainAxisSum_scale,
     length_scale, longestLineLength_scale hk]
   cases ho : c.nodeOuterSize.main c.dir with
-  | some v => exact Or.inl ⟨Or.inl rfl, v, rfl, rfl⟩
+  | some v => exact Or.inl ⟨v, rfl, rfl⟩
   | none =>
     cases ha : av.main c.dir with
     | definite a =>
-      refine Or.inl ⟨Or.inr (Or.inl rfl), _, rfl, ?_⟩
+      refine Or.inl ⟨_, rfl, ?_⟩
       simp only [scale_none, scale_definite, add_scale, fmax_scale hk, ite_scale]
     | minContent =>
       by_cases hw : c.isWrap = true
-      · refine Or.inl ⟨Or.inr (Or.inr ⟨rfl, hw⟩),
-          longestLineLength c lines + c.contentBoxInset.mainAxisSum c.dir, ?_, ?_⟩
+      · refine Or.inl ⟨longestLineLength c lines + c.contentBoxInset.mainAxisSum c.dir, ?_, ?_⟩
         · simp only [hw, if_true]
         · simp only [scale_none, scale_minContent, hw, if_true, add_scale]
-      · refine Or.inr ⟨?_, ?_, ?_⟩
-        · rintro (h | h | ⟨_, h⟩)
-          · cases h
-          · cases h
-          · exact hw h
+      · refine Or.inr ⟨?_, ?_⟩
         · simp only [hw]
           rfl
         · simp only [scale_none, scale_minContent, hw]
@@ -130,64 +117,40 @@ theorem mainOuter_cases (hk : 0 < k) (c : AlgoConstants Rat) (av : Size (Availab
           simp only [fxk_contentBoxInset, fxk_dir, Rect.mainAxisSum_scale]
           rfl
     | maxContent =>
-      refine Or.inr ⟨?_, rfl, ?_⟩
-      · rintro (h | h | ⟨h, _⟩)
-        · cases h
-        · cases h
-        · cases h
-      · simp only [scale_none, scale_maxContent]
-        unfold mainIntrinsic
-        simp only [fxk_contentBoxInset, fxk_dir, Rect.mainAxisSum_scale]
+      refine Or.inr ⟨rfl, ?_⟩
+      simp only [scale_none, scale_maxContent]
+      unfold mainIntrinsic
+      simp only [fxk_contentBoxInset, fxk_dir, Rect.mainAxisSum_scale]
 
-theorem mainIntrinsic_sim (hk : 0 < k) (c : AlgoConstants Rat) (av : Size (AvailableSpace Rat))
+theorem mainIntrinsic_scale (hk : 0 < k) (c : AlgoConstants Rat) (av : Size (AvailableSpace Rat))
     (lines : List (FlexLineS Rat)) :
-    SimS k (fun r' r => LinesFloorFree k r.1 → r' = scale k r)
-      (mainIntrinsic (scale k c) (scale k av) (scale k lines)) (mainIntrinsic c av lines) := by
+    mainIntrinsic (scale k c) (scale k av) (scale k lines) = scaleProg k (mainIntrinsic c av lines) := by
   unfold mainIntrinsic
   simp only [fxk_contentBoxInset, fxk_dir, Rect.mainAxisSum_scale]
-  refine SimS.bind (intrinsicLines_sim hk c av _ lines 0 0) fun r' r hr => ?_
-  obtain ⟨l', m'⟩ := r'
-  obtain ⟨l, m⟩ := r
-  refine .pure _ _ fun h => ?_
-  have := hr (scale_zero k).symm h
-  rw [scale_pair, Prod.mk.injEq] at this
-  show (l', m' + _) = scale k (l, m + _)
-  rw [this.1, this.2, scale_pair, add_scale]
+  apply bind_scale_of
+  · have := intrinsicLines_scale hk c av (c.contentBoxInset.mainAxisSum c.dir) lines 0
+    rwa [scale_zero] at this
+  · intro r
+    obtain ⟨l, m⟩ := r
+    show ProgM.pure ((scale k (l, m)).1, (scale k (l, m)).2 + _) = ProgM.pure (scale k (l, m + _))
+    rw [scale_pair, scale_pair, add_scale]
 
-theorem mainOuter_sim (hk : 0 < k) (c : AlgoConstants Rat) (av : Size (AvailableSpace Rat))
+theorem mainOuter_scale (hk : 0 < k) (c : AlgoConstants Rat) (av : Size (AvailableSpace Rat))
     (lines : List (FlexLineS Rat)) :
-    SimS k (fun r' r => LinesFloorFree k r.1 → r' = scale k r)
-      (mainOuter (scale k c) (scale k av) (scale k lines)) (mainOuter c av lines) := by
-  rcases mainOuter_cases hk c av lines with ⟨_, v, h1, h2⟩ | ⟨_, h1, h2⟩
-  · rw [h1, h2]
-    exact .pure _ _ fun _ => rfl
-  · rw [h1, h2]
-    exact mainIntrinsic_sim hk c av lines
-
-theorem mainOuter_scale_of (hk : 0 < k) (c : AlgoConstants Rat) (av : Size (AvailableSpace Rat))
-    (lines : List (FlexLineS Rat)) (h : NoIntrinsic c av) :
     mainOuter (scale k c) (scale k av) (scale k lines) = scaleProg k (mainOuter c av lines) := by
-  rcases mainOuter_cases hk c av lines with ⟨_, v, h1, h2⟩ | ⟨hn, _, _⟩
+  rcases mainOuter_cases hk c av lines with ⟨v, h1, h2⟩ | ⟨h1, h2⟩
   · rw [h1, h2]; rfl
-  · exact absurd h hn
+  · rw [h1, h2]
+    exact mainIntrinsic_scale hk c av lines
 
-theorem determineContainerMainSize_sim (hk : 0 < k) (c : AlgoConstants Rat) (av : Size (AvailableSpace Rat))
+/-- **determineContainerMainSize_scale**: `determine_container_main_size`, every arm -/
+theorem determineContainerMainSize_scale (hk : 0 < k) (c : AlgoConstants Rat) (av : Size (AvailableSpace Rat))
     (lines : List (FlexLineS Rat)) :
-    SimS k (fun r' r => LinesFloorFree k r.1 → r' = scale k r)
-      (determineContainerMainSize (scale k c) (scale k av) (scale k lines)) (determineContainerMainSize c av lines) := by
-  rw [determineContainerMainSize_eq, determineContainerMainSize_eq]
-  refine SimS.bind (mainOuter_sim hk c av lines) fun r' r hr => ?_
-  refine .pure _ _ fun h => ?_
-  rw [hr h, scale_fst, scale_snd, mainFinish_scale hk]
-  rfl
-
-theorem determineContainerMainSize_scale_of (hk : 0 < k) (c : AlgoConstants Rat) (av : Size (AvailableSpace Rat))
-    (lines : List (FlexLineS Rat)) (h : NoIntrinsic c av) :
     determineContainerMainSize (scale k c) (scale k av) (scale k lines) =
       scaleProg k (determineContainerMainSize c av lines) := by
   rw [determineContainerMainSize_eq, determineContainerMainSize_eq]
   apply bind_scale_of
-  · exact mainOuter_scale_of hk c av lines h
+  · exact mainOuter_scale hk c av lines
   · intro r
     rw [scale_fst, scale_snd, mainFinish_scale hk]
     rfl
@@ -210,33 +173,15 @@ theorem mainStage_cases (k : Rat) (style : Style Rat) (c : AlgoConstants Rat) (a
   | some v => exact Or.inl ⟨v, rfl, rfl, rfl⟩
   | none => exact Or.inr ⟨rfl, rfl, rfl⟩
 
-theorem mainStage_sim (hk : 0 < k) (style : Style Rat) (c : AlgoConstants Rat) (av : Size (AvailableSpace Rat))
+theorem mainStage_scale (hk : 0 < k) (style : Style Rat) (c : AlgoConstants Rat) (av : Size (AvailableSpace Rat))
     (lines : List (FlexLineS Rat)) :
-    SimS k (fun r' r => LinesFloorFree k r.1 → r' = scale k r)
-      (mainStage (scale k style) (scale k c) (scale k av) (scale k lines)) (mainStage style c av lines) := by
+    mainStage (scale k style) (scale k c) (scale k av) (scale k lines) = scaleProg k (mainStage style c av lines) := by
   rcases mainStage_cases k style c av lines with ⟨v, _, h1, h2⟩ | ⟨_, h1, h2⟩
   · rw [h1, h2, mainKnown_scale]
-    exact .pure _ _ fun _ => rfl
-  · rw [h1, h2]
-    refine SimS.bind (determineContainerMainSize_sim hk c av lines) fun r' r hr => ?_
-    refine .pure _ _ fun h => ?_
-    rw [hr h, scale_fst, scale_snd, mainPatch_scale]
-    rfl
-
-/-- `mainStage` under the static condition: the inner main size is known, or `NoIntrinsic` -/
-theorem mainStage_scale_of (hk : 0 < k) (style : Style Rat) (c : AlgoConstants Rat) (av : Size (AvailableSpace Rat))
-    (lines : List (FlexLineS Rat)) (h : (c.nodeInnerSize.main c.dir).isSome = true ∨ NoIntrinsic c av) :
-    mainStage (scale k style) (scale k c) (scale k av) (scale k lines) = scaleProg k (mainStage style c av lines) := by
-  rcases mainStage_cases k style c av lines with ⟨v, _, h1, h2⟩ | ⟨hn, h1, h2⟩
-  · rw [h1, h2, mainKnown_scale]
     rfl
   · rw [h1, h2]
-    have hni : NoIntrinsic c av := by
-      rcases h with h | h
-      · rw [hn] at h; cases h
-      · exact h
     apply bind_scale_of
-    · exact determineContainerMainSize_scale_of hk c av lines hni
+    · exact determineContainerMainSize_scale hk c av lines
     · intro r
       rw [scale_fst, scale_snd, mainPatch_scale]
       rfl
@@ -266,42 +211,22 @@ theorem baseProg_scale (hk : 0 < k) (style : Style Rat) (cs : List (Style Rat)) 
   rw [this]
   exact determineFlexBaseSize_scale hk _ _ cs _ (generateItemsFrom_cff _ cs 0)
 
-/-- **prefixProg_sim**: steps 1–5 and the main-size determination of the scaled container send the scaled queries; the
-result is the scaled result unless an item hit the floor of `determine_container_main_size` -/
-theorem prefixProg_sim (hk : 0 < k) (style : Style Rat) (cs : List (Style Rat)) (inp : LayoutInput Rat) :
-    SimS k (fun r' r => LinesFloorFree k r.1 → r' = scale k r)
-      (prefixProg (scale k style) (cs.map (scale k)) (scale k inp)) (prefixProg style cs inp) := by
-  unfold prefixProg
-  refine SimS.bind (SimS.of_eq' hk (baseProg_scale hk style cs inp)) fun items' items hi => ?_
-  subst hi
-  rw [prelimConsts_scale hk, prelimAvail_scale hk, collectFlexLines_scale hk]
-  exact mainStage_sim hk style _ _ _
-
-/-- the static condition on the container: its main size is not determined intrinsically -/
-def NoIntrinsicMain (style : Style Rat) (inp : LayoutInput Rat) : Prop :=
-  ((prelimConsts style inp).nodeInnerSize.main (prelimConsts style inp).dir).isSome = true ∨
-    NoIntrinsic (prelimConsts style inp) (prelimAvail style inp)
-
-instance (style : Style Rat) (inp : LayoutInput Rat) : Decidable (NoIntrinsicMain style inp) := by
-  unfold NoIntrinsicMain; exact inferInstance
-
-theorem prefixProg_scale_of (hk : 0 < k) (style : Style Rat) (cs : List (Style Rat)) (inp : LayoutInput Rat)
-    (h : NoIntrinsicMain style inp) :
+/-- **prefixProg_scale**: steps 1–5 and the main-size determination -/
+theorem prefixProg_scale (hk : 0 < k) (style : Style Rat) (cs : List (Style Rat)) (inp : LayoutInput Rat) :
     prefixProg (scale k style) (cs.map (scale k)) (scale k inp) = scaleProg k (prefixProg style cs inp) := by
   unfold prefixProg
   apply bind_scale_of
   · exact baseProg_scale hk style cs inp
   · intro items
     rw [prelimConsts_scale hk, prelimAvail_scale hk, collectFlexLines_scale hk]
-    exact mainStage_scale_of hk style _ _ _ h
+    exact mainStage_scale hk style _ _ _
 
-theorem computePreliminary_scale_of (hk : 0 < k) (style : Style Rat) (cs : List (Style Rat)) (inp : LayoutInput Rat)
-    (h : NoIntrinsicMain style inp) :
+theorem computePreliminary_scale (hk : 0 < k) (style : Style Rat) (cs : List (Style Rat)) (inp : LayoutInput Rat) :
     computePreliminary (scale k style) (cs.map (scale k)) (scale k inp) =
       scaleProg k (computePreliminary style cs inp) := by
   rw [computePreliminary_split, computePreliminary_split, prelimAvail_scale hk]
   apply bind_scale_of
-  · exact prefixProg_scale_of hk style cs inp h
+  · exact prefixProg_scale hk style cs inp
   · intro r
     exact afterMain_scale hk cs inp _ r
 
@@ -335,16 +260,14 @@ theorem computeFlexboxLayout_cases (hk : 0 < k) (style : Style Rat) (cs : List (
       | exact Or.inr ⟨rfl, rfl⟩
       | exact Or.inl ⟨_, _, rfl, rfl⟩
 
-/-- **computeFlexboxLayout_scale_of**: the whole flexbox program of a container whose main size is not determined
-intrinsically is homogeneous -/
-theorem computeFlexboxLayout_scale_of (hk : 0 < k) (style : Style Rat) (cs : List (Style Rat)) (inp : LayoutInput Rat)
-    (h : NoIntrinsicMain style (flexInput style inp)) :
+/-- **computeFlexboxLayout_scale**: the whole flexbox program is homogeneous -/
+theorem computeFlexboxLayout_scale (hk : 0 < k) (style : Style Rat) (cs : List (Style Rat)) (inp : LayoutInput Rat) :
     computeFlexboxLayout (scale k style) (cs.map (scale k)) (scale k inp) =
       scaleProg k (computeFlexboxLayout style cs inp) := by
   rcases computeFlexboxLayout_cases hk style cs inp with ⟨w, h', h1, h2⟩ | ⟨h1, h2⟩
   · rw [h1, h2, LayoutOutput.fromOuterSize_scale_mk]
     rfl
   · rw [h1, h2, flexInput_scale hk]
-    exact computePreliminary_scale_of hk style cs _ h
+    exact computePreliminary_scale hk style cs _
 
 end C04
